@@ -11,6 +11,10 @@ SITE_N = "gaussian_process_train.py:get_grid_search_neighbors"
 SITE_A = "gaussian_process_train.py:add_and_update_gp"
 SITE_Q = "acq_fcn_lcb.py:acq_fcn_lcb"
 
+# case kinds of corpus/ entries (failing inputs of past regressions) that this module replays on every run
+CORPUS_KINDS = ('gp_run',)
+
+
 
 def sqrt_beta(D, fc):
     t = fc + 1
